@@ -11,7 +11,7 @@ from ..interp import Pins, find_nodes, unparse
 from ..model import AnalysisError
 from .util import effect_table, enclosing_loop, enclosing_stmt, enum_members, every_iteration_reaches, fmt, inline_displays, is_const, parent, returns_of, same, single_def
 
-P = ("C05", "C01")
+P = ("C05", "C01", "C06")
 OPS = ["Equal", "NotEqual", "GreaterEqual", "LessEqual", "GreaterThan", "LessThan"]
 NEG = {"Equal": "NotEqual", "NotEqual": "Equal", "GreaterEqual": "LessThan", "LessEqual": "GreaterThan", "GreaterThan": "LessEqual", "LessThan": "GreaterEqual"}
 CONV = {"Equal": "Equal", "NotEqual": "NotEqual", "GreaterEqual": "LessEqual", "LessEqual": "GreaterEqual", "GreaterThan": "LessThan", "LessThan": "GreaterThan"}
